@@ -39,6 +39,16 @@ func (c *ShipConnection) protocolHandshake() model.MessageProtocolHandshake {
 func (c *ShipConnection) handshakeProtocol_smeProtHStateServerListenProposal(message []byte) {
 	_, data := c.parseMessage(message, true)
 
+	// the remote service may have sent hello updates before it received our ready message,
+	// e.g. when the pending handshake was just approved. These are outdated, so ignore them
+	// and keep waiting for the protocol handshake proposal until the timer expires
+	var helloMsg model.ConnectionHello
+	if err := json.Unmarshal([]byte(data), &helloMsg); err == nil &&
+		(helloMsg.ConnectionHello.Phase == model.ConnectionHelloPhaseTypeReady ||
+			helloMsg.ConnectionHello.Phase == model.ConnectionHelloPhaseTypePending) {
+		return
+	}
+
 	messageProtocolHandshake := model.MessageProtocolHandshake{}
 	if err := json.Unmarshal([]byte(data), &messageProtocolHandshake); err != nil {
 		c.endHandshakeWithError(err)
